@@ -12,42 +12,43 @@ import (
 
 // Profile steers the distribution of one campaign.
 type Profile struct {
-	Name          string
-	GenericPct    int // % of interfaces that are generic
-	MinDeps       int
-	MaxDeps       int
-	StdPct        int  // % chance that a named-type draw picks a std package
-	Conflict      bool // bias dependency paths towards colliding names
-	AdvNames      bool // adversarial parameter name pools
-	MaxIfaces     int
-	MaxMethods    int
-	MaxParams     int
-	MaxResults    int
-	MaxDepth      int
-	EmbedPct      int
-	AliasPct      int  // % chance a source import gets an alias
-	DestOther     int  // % other-package destination
-	DestTest      int  // % <src>_test destination
-	DestSame      int  // % explicit -pkg <src name>
-	OutFilePct    int  // % of cases using -out instead of stdout
-	ExecSafe      bool // harness X: shapes the reflective driver can build values for
-	InPlaceOnly   bool
-	FmtDefault    bool   // only the default formatter
-	MultiArgPct   int    // % of cases with >1 interface argument
-	UnnamedPct    int    // % of signatures with unnamed parameters
-	GopathPct     int    // % of worlds in GOPATH+vendor layout
-	ModPath       string // module-relative import path prefix of the world (default example.com/w, own go.mod)
-	NoDotBlank    bool   // no dot / blank imports in the source files
-	UniqueAliases bool   // never use one alias for two different paths (known finding F-K, harness F)
-	ShadowPct     int    // % of signatures in which earlier parameters are named like the packages a later parameter type mentions
-	Evolve        bool   // also render a second version of the source (first requested literal interface gains a method)
-	MultiRefPct   int    // % bias towards dependency interfaces whose one method type mentions several same-named packages
+	Name            string
+	GenericPct      int // % of interfaces that are generic
+	MinDeps         int
+	MaxDeps         int
+	StdPct          int  // % chance that a named-type draw picks a std package
+	Conflict        bool // bias dependency paths towards colliding names
+	AdvNames        bool // adversarial parameter name pools
+	MaxIfaces       int
+	MaxMethods      int
+	MaxParams       int
+	MaxResults      int
+	MaxDepth        int
+	EmbedPct        int
+	AliasPct        int  // % chance a source import gets an alias
+	DestOther       int  // % other-package destination
+	DestTest        int  // % <src>_test destination
+	DestSame        int  // % explicit -pkg <src name>
+	OutFilePct      int  // % of cases using -out instead of stdout
+	ExecSafe        bool // harness X: shapes the reflective driver can build values for
+	InPlaceOnly     bool
+	FmtDefault      bool   // only the default formatter
+	MultiArgPct     int    // % of cases with >1 interface argument
+	UnnamedPct      int    // % of signatures with unnamed parameters
+	GopathPct       int    // % of worlds in GOPATH+vendor layout
+	ModPath         string // module-relative import path prefix of the world (default example.com/w, own go.mod)
+	LiteralAliasPct int    // % of non-generic interfaces declared as alias of an interface literal
+	NoDotBlank      bool   // no dot / blank imports in the source files
+	UniqueAliases   bool   // never use one alias for two different paths (known finding F-K, harness F)
+	ShadowPct       int    // % of signatures in which earlier parameters are named like the packages a later parameter type mentions
+	Evolve          bool   // also render a second version of the source (first requested literal interface gains a method)
+	MultiRefPct     int    // % bias towards dependency interfaces whose one method type mentions several same-named packages
 }
 
 func DefaultProfile() Profile {
 	return Profile{Name: "default", GenericPct: 20, MinDeps: 0, MaxDeps: 4, StdPct: 40, MaxIfaces: 3, MaxMethods: 4, MaxParams: 4,
 		MaxResults: 3, MaxDepth: 3, EmbedPct: 25, AliasPct: 25, DestOther: 25, DestTest: 10, DestSame: 8, OutFilePct: 10,
-		MultiArgPct: 30, UnnamedPct: 40}
+		MultiArgPct: 30, UnnamedPct: 40, LiteralAliasPct: 7}
 }
 
 // G is one generation run.
@@ -1234,7 +1235,8 @@ func (g *G) genTParams(skipEnsure bool) ([]TParamDecl, bool) {
 		g.label("constraint:" + tp.Kind)
 		switch tp.Kind {
 		case "any", "comparable", "union-inline", "union-named", "element-then-union", "method-iface":
-			if n >= 2 && g.Chance(8) {
+			prevBlank := len(tps) > 0 && tps[len(tps)-1].Name == "_"
+			if n >= 2 && (g.Chance(8) || (prevBlank && g.Chance(60))) {
 				tp.Name = "_" // blank type parameter: never referenced, the mock must still name it
 				g.label("tparam:blank")
 			}
@@ -1384,7 +1386,7 @@ func (g *G) genIface(cfgSkipEnsure bool) *Iface {
 	if len(it.AllMeths) == 0 {
 		g.label("iface:empty")
 	}
-	if len(it.TParams) == 0 && g.Chance(7) {
+	if len(it.TParams) == 0 && g.Chance(g.P.LiteralAliasPct) {
 		it.LiteralAlias = true
 		g.label("iface:literal-alias")
 	}
